@@ -499,3 +499,42 @@ V('c14-id-on-multicast', 'C14', 'C14.TC', OUTF, "            if self.multicast:\
 # twins
 V('c14-twin-limit-flipped', 'C14', 'C14.LIMIT', OUTF, "        if self.size <= len_limit:", "        if not self.size > len_limit:", expect='silent')
 V('c14-twin-tc-nested', 'C14', 'C14.TC', OUTF, "            if has_more_to_add and self.is_query():", "            if self.is_query() and has_more_to_add is True:", expect='silent')
+
+# ---------------------------------------------------------------- C01
+V('c01-label-64', 'C01', 'C01.LABEL', OUTF, "        if length > 63:\n            raise NamePartTooLongException", "        if length > 64:\n            raise NamePartTooLongException")
+V('c01-label-chars-not-bytes', 'C01', 'C01.LABEL', OUTF, "        utfstr = s.encode('utf-8')\n        length = len(utfstr)", "        utfstr = s.encode('utf-8')\n        length = len(s)")
+V('c01-pointer-tag', 'C01', 'C01.LABEL', OUTF, "        self._write_byte((index >> 8) | 0xC0)", "        self._write_byte((index >> 8) | 0x80)")
+V('c01-decoder-label-80', 'C01', 'C01.LABEL', INCF, "            if length < 0x40:", "            if length < 0x80:")
+V('c01-srv-swap-writer', 'C01', 'C01.LAYOUT', DNS,
+  "        out.write_short(self.priority)\n        out.write_short(self.weight)", "        out.write_short(self.weight)\n        out.write_short(self.priority)")
+V('c01-srv-swap-both', 'C01', 'C01.LAYOUT', DNS,
+  "        out.write_short(self.priority)\n        out.write_short(self.weight)", "        out.write_short(self.weight)\n        out.write_short(self.priority)",
+  more=[(INCF, "            priority = view[offset] << 8 | view[offset + 1]\n            weight = view[offset + 2] << 8 | view[offset + 3]", "            weight = view[offset] << 8 | view[offset + 1]\n            priority = view[offset + 2] << 8 | view[offset + 3]")])
+V('c01-port-before-weight', 'C01', 'C01.LAYOUT', INCF,
+  "            weight = view[offset + 2] << 8 | view[offset + 3]\n            port = view[offset + 4] << 8 | view[offset + 5]", "            port = view[offset + 2] << 8 | view[offset + 3]\n            weight = view[offset + 4] << 8 | view[offset + 5]")
+V('c01-ttl-u16', 'C01', 'C01.LAYOUT', OUTF,
+  "        self._write_int(record.ttl if now == 0 else record.get_remaining_ttl(now))", "        self.write_short(int(record.ttl if now == 0 else record.get_remaining_ttl(now)))")
+V('c01-hinfo-order', 'C01', 'C01.LAYOUT', DNS,
+  "        out.write_character_string(self.cpu.encode('utf-8'))\n        out.write_character_string(self.os.encode('utf-8'))", "        out.write_character_string(self.os.encode('utf-8'))\n        out.write_character_string(self.cpu.encode('utf-8'))")
+V('c01-header-swapped-both', 'C01', 'C01.LAYOUT', INCF,
+  "        self._num_authorities = view[offset + 8] << 8 | view[offset + 9]\n        self._num_additionals = view[offset + 10] << 8 | view[offset + 11]",
+  "        self._num_additionals = view[offset + 8] << 8 | view[offset + 9]\n        self._num_authorities = view[offset + 10] << 8 | view[offset + 11]")
+V('c01-aaaa-8-bytes', 'C01', 'C01.LAYOUT', INCF, "self._read_string(16), self.scope_id, self.now)", "self._read_string(8), self.scope_id, self.now)")
+V('c01-cname-dropped', 'C01', 'C01.LAYOUT', INCF, "        if type_ in (_TYPE_CNAME, _TYPE_PTR):", "        if type_ == _TYPE_PTR:")
+V('c01-little-endian-class', 'C01', 'C01.LAYOUT', INCF,
+  "            class_ = view[offset + 2] << 8 | view[offset + 3]\n            question = DNSQuestion", "            class_ = view[offset + 3] << 8 | view[offset + 2]\n            question = DNSQuestion")
+V('c01-created-not-arrival', 'C01', 'C01.LAYOUT', INCF, "return DNSText(domain, type_, class_, ttl, self._read_string(length), self.now)", "return DNSText(domain, type_, class_, ttl, self._read_string(length))")
+V('c01-names-not-rolled-back', 'C01', 'C01.ROLLBACK', OUTF,
+  "        for name in rollback_names:\n            del self.names[name]\n        return False", "        return False")
+V('c01-names-not-reset', 'C01', 'C01.ROLLBACK', OUTF, "        self.names = {}\n        self.data = []\n        self.size = _DNS_PACKET_HEADER_LEN\n        self.allow_long = True\n\n    def __repr__", "        self.data = []\n        self.size = _DNS_PACKET_HEADER_LEN\n        self.allow_long = True\n\n    def __repr__")
+V('c01-rollback-gt', 'C01', 'C01.ROLLBACK', OUTF, "if idx >= start_size_int]", "if idx > start_size_int]")
+V('c01-suffix-offset', 'C01', 'C01.ROLLBACK', OUTF,
+  "self.names[partial_name] = start_size + name_length - len(partial_name.encode('utf-8'))", "self.names[partial_name] = start_size + name_length - len(partial_name)")
+V('c01-flush-on-unicast', 'C01', 'C01.FLUSHBIT', OUTF, "        if record.unique is True and self.multicast:", "        if record.unique is True:")
+V('c01-nsec-lsb-first', 'C01', 'C01.NSECBITS', DNS, "            bitmap[byte] |= 0x80 >> (rdtype % 8)", "            bitmap[byte] |= 0x01 << (rdtype % 8)")
+V('c01-nsec-reader-window', 'C01', 'C01.NSECBITS', INCF, "rdtypes.append(bit + window * 256 + i * 8)", "rdtypes.append(bit + window * 128 + i * 8)")
+# twins
+V('c01-twin-label-ge', 'C01', 'C01.LABEL', OUTF, "        if length > 63:\n            raise NamePartTooLongException", "        if length >= 0x40:\n            raise NamePartTooLongException", expect='silent')
+V('c01-twin-srv-locals-reordered', 'C01', 'C01.LAYOUT', INCF,
+  "            priority = view[offset] << 8 | view[offset + 1]\n            weight = view[offset + 2] << 8 | view[offset + 3]\n            port = view[offset + 4] << 8 | view[offset + 5]",
+  "            port = view[offset + 4] << 8 | view[offset + 5]\n            weight = view[offset + 2] << 8 | view[offset + 3]\n            priority = view[1 + offset] | view[offset] << 8", expect='silent')
